@@ -53,9 +53,17 @@ def _run_variant(args) -> dict:
 
     rel, old, new = v["file"], v["old"], v["new"]
     src = (Path(root) / rel).read_text()
-    if src.count(old) != 1:
-        return dict(name=v["name"], status="skipped", why=f"anchor text occurs {src.count(old)} times in {rel}")
-    tmp = mirror(Path(root), {rel: src.replace(old, new)})
+    if v.get("regex"):
+        import re
+
+        edited, n = re.subn(old, new, src)
+        if n < v.get("min_count", 1):
+            return dict(name=v["name"], status="skipped", why=f"pattern matches {n} times in {rel}")
+    else:
+        if src.count(old) != 1:
+            return dict(name=v["name"], status="skipped", why=f"anchor text occurs {src.count(old)} times in {rel}")
+        edited = src.replace(old, new)
+    tmp = mirror(Path(root), {rel: edited})
     try:
         common._noreturn_cache.clear()
         try:
